@@ -671,6 +671,9 @@ impl BitSink for MemSink<u64> {
 
     #[inline]
     fn write_msbs<T: Bits>(&mut self, val: T, n: usize) -> Result<(), Self::Error> {
+        if n == 0 {
+            return Ok(());
+        }
         // clear lsbs
         let mut val = val;
         val &= !((T::one() << (T::BITS - n)) - T::one());
@@ -680,6 +683,9 @@ impl BitSink for MemSink<u64> {
 
     #[inline]
     fn write_lsbs<T: Bits>(&mut self, val: T, n: usize) -> Result<(), Self::Error> {
+        if n == 0 {
+            return Ok(());
+        }
         self.write_msbs_impl(val << (T::BITS - n), n);
         Ok(())
     }
